@@ -181,6 +181,11 @@ class Lexer:
                     % (node.keyword, self.control_line[-1].keyword),
                     **self.exception_kwargs,
                 )
+            elif not self.control_line:
+                raise exceptions.SyntaxException(
+                    "Keyword '%s' without a starting keyword" % node.keyword,
+                    **self.exception_kwargs,
+                )
 
     _coding_re = re.compile(r"#.*coding[:=]\s*([-\w.]+).*\r?\n")
 
